@@ -316,7 +316,9 @@ class Run(RunBase):
         try:
             mapping = self.net.map_obstacles_to_lanelets(obs)
             filt = self.net.filter_obstacles_in_network(obs)
-            per_lanelet = {la.lanelet_id: la.get_obstacles(obs, 0) for la in self.net.lanelets}
+            # (alternately with the time step spelled out and left at its default, which is 0)
+            per_lanelet = {la.lanelet_id: (la.get_obstacles(obs, 0) if n % 2 else la.get_obstacles(obs))
+                           for n, la in enumerate(self.net.lanelets)}
         except Exception as e:  # noqa
             raise Violation(self._sig("obstacle-mapping-raised"),
                             f"get_obstacles / map_obstacles_to_lanelets raised {type(e).__name__}: {e}")
@@ -943,6 +945,9 @@ class C06(Property):
             role = rng.weighted(["static", "dynamic", "dynamic_nopred"], [3, 2, 1])
             obstacles.append(gen.gen_obstacle(rng, ids.take(), net, role=role, t0=0,
                                               shape_kinds=("rect", "circ", "poly", "group"), on_road=0.7, offset_p=0.2))
+        for ob in obstacles:
+            if ob["role"] == "static" and rng.chance(0.4):
+                ob["init"]["t"] = rng.randint(1, 5)  # a parked vehicle recorded from a later time step on
         if obstacles and rng.chance(0.3):
             other = gen.gen_obstacle(rng, obstacles[0]["id"], net, role="static", t0=0,
                                      shape_kinds=("rect", "poly"), on_road=0.9)
